@@ -373,6 +373,9 @@ def num_binop(op, a, b, e=None):
     if op == '/':
         if b.r.is_zero():
             raise Unsupported("division by an identically zero expression", e)
+        if isinstance(e, dict) and e.get('ty') in ('usize', 'isize', 'u8', 'u16', 'u32', 'u64', 'i8', 'i16', 'i32', 'i64') and \
+                a.const() is not None and b.const() is not None and a.const().denominator == 1 and b.const().denominator == 1 and a.const() >= 0 and b.const() > 0:
+            return Num(int(a.const()) // int(b.const()))          # integer division of two known non-negative integers
         return Num(a.r / b.r)
     raise Unsupported("operator " + op, e)
 
